@@ -81,6 +81,7 @@ def run(rep: Report, tier: str) -> None:
 	rule_f(rep)
 	rule_g(rep)
 	rule_h(rep)
+	rule_i(rep)
 
 
 def rule_g(rep: Report) -> None:
@@ -499,25 +500,36 @@ def rule_e(rep: Report) -> None:
 		return 'n'
 
 	def min_reps(member: str):
-		cur = zero.body
-		# if/elif chain inside `if found == 0`
-		node = cur[0] if cur and isinstance(cur[0], ast.If) else None
-		while isinstance(node, ast.If):
-			t = ev(node.test, member)
-			if t is True:
-				ret = next((x for x in ast.walk(ast.Module(body=node.body, type_ignores=[])) if isinstance(x, ast.Return)), None)
-				src = unparse(ret.value) if ret else ''
-				return (0, 'empty()' in src) if 'Step.ok' in src else (1, False)
-			if t is None:
+		"""(minimum repetitions, empty placeholder?) from the zero-match part: an if/elif/else chain, or a sequence of `if ...: return` statements ending
+		in a plain return"""
+		def verdict(stmts: list[ast.stmt]):
+			ret = next((x for x in ast.walk(ast.Module(body=stmts, type_ignores=[])) if isinstance(x, ast.Return)), None)
+			src = unparse(ret.value) if ret else ''
+			return (0, 'empty()' in src) if 'Step.ok' in src else (1, False)
+
+		def walk(stmts: list[ast.stmt]):
+			for st in stmts:
+				if isinstance(st, ast.If):
+					t = ev(st.test, member)
+					if t is None:
+						return None
+					if t is True:
+						inner = walk(st.body)
+						return inner if inner is not None else None
+					if st.orelse:
+						inner = walk(st.orelse)
+						if inner is not None:
+							return inner
+						if any(isinstance(x, ast.Return) for x in ast.walk(ast.Module(body=st.orelse, type_ignores=[]))):
+							return None
+					continue
+				if isinstance(st, ast.Return):
+					return verdict([st])
+				if isinstance(st, (ast.Expr, ast.Assign, ast.AnnAssign, ast.Pass)):
+					continue
 				return None
-			nxt = node.orelse
-			if len(nxt) == 1 and isinstance(nxt[0], ast.If):
-				node = nxt[0]
-			else:
-				ret = next((x for x in ast.walk(ast.Module(body=nxt, type_ignores=[])) if isinstance(x, ast.Return)), None)
-				src = unparse(ret.value) if ret else ''
-				return (0, 'empty()' in src) if 'Step.ok' in src else (1, False)
-		return None
+			return None
+		return walk(zero.body)
 
 	for member, sym in members.items():
 		if member == 'NoRepeat' or sym is None:
@@ -603,3 +615,10 @@ def rule_h(rep: Report) -> None:
 			r.ok(f'one-time:{key}', where)
 	if n_sites == 0:
 		r.skip('_unwrap_children', f.where, 'no append / extend in the loop')
+
+
+def rule_i(rep: Report) -> None:
+	"""every derivable sentence is consumed: the lexer's sign / subtraction decision for `-` must say "sign" in front of every operand the grammar allows
+	after op_unary (the rule and its FIRST-set computation live in checks/c13.py; the obligation is C11's as much as C13's)"""
+	from checks import c13
+	c13.rule_unary_minus(rep, SourceIndex(), 'C11/unary-minus-covers-every-operand-start')
